@@ -111,6 +111,8 @@ fn hash_snap(h: &mut ObsHash, s: &Snap) {
 struct Twin {
     tl_index: usize,
     tl: MergedTimeline<TargetTimeline>,
+    /// the values the timeline was started from (None = never substituted)
+    start: Option<Vals>,
 }
 
 impl Twin {
@@ -119,7 +121,49 @@ impl Twin {
         if let Some(s) = start {
             tl.start_with(s);
         }
-        Twin { tl_index, tl }
+        Twin {
+            tl_index,
+            tl,
+            start: start.map(vals_of),
+        }
+    }
+
+    /// Independent check against the documented timeline semantics (reference evaluator in
+    /// simmodel::oracle): every keyed property of `comp` must match the reference at one of the
+    /// candidate positions. Returns a description of the first property that matches none.
+    fn reference_mismatch(&self, cfg: &Cfg, comp: &Target, candidates: &[Duration]) -> Option<String> {
+        let m = &cfg.tls[self.tl_index];
+        let v = vals_of(comp);
+        for prop in 0..4 {
+            if !m.keyframes_prop(prop) {
+                continue;
+            }
+            let actual = oracle::get_prop(&v, prop);
+            let mut ok = false;
+            let mut refs = Vec::new();
+            for pos in candidates {
+                let t = pos.as_secs_f32();
+                if !(t < 1.0e6) {
+                    ok = true;
+                    break;
+                }
+                if let Some(rp) = &oracle::ref_eval(m, self.start.as_ref(), t)[prop] {
+                    if rp.near_boundary || oracle::ref_matches(actual, rp, 1e-4) {
+                        ok = true;
+                        break;
+                    }
+                    refs.push(rp.value);
+                }
+            }
+            if !ok {
+                return Some(format!(
+                    "{} is {actual:?}; the documented timeline semantics give {refs:?} at positions {candidates:?} (started from {})",
+                    PROP_NAMES[prop],
+                    self.start.as_ref().map(vals_brief).unwrap_or_else(|| "the timeline's own 0% values".into())
+                ));
+            }
+        }
+        None
     }
     fn eval(&self, into: &Target, pos: Duration) -> Target {
         let mut t = into.clone();
@@ -596,6 +640,8 @@ fn execute(scn: &BScn, property: &str) -> RunOutcome {
                     let c2 = t.eval(&before.comp, after.pos);
                     if !keyed_equal(m, &after.comp, &c1) && !keyed_equal(m, &after.comp, &c2) {
                         fail!("C18", "playing-component-stale", "frame {fi}: Playing at {:?} but the component is {}; the timeline gives {} at {pos_base:?} and {} at {:?} (state before the frame {state_base:?}, re-targeted {retargeted})", after.pos, tbrief(&after.comp), tbrief(&c1), tbrief(&c2), after.pos);
+                    } else if let Some(d) = t.reference_mismatch(cfg, &after.comp, &[pos_base, after.pos]) {
+                        fail!("C18", "playing-component-vs-documented-timeline-semantics", "frame {fi}: Playing: {d}");
                     }
                     out.count("probe.playing_frame_checked");
                 }
@@ -775,6 +821,9 @@ fn execute(scn: &BScn, property: &str) -> RunOutcome {
                                 if !keyed_equal(m, &after.comp, &c1) && !keyed_equal(m, &after.comp, &c2) {
                                     let clause = if retargeted { "jump-on-key-change" } else { "not-following-new-timeline" };
                                     fail!("C19", clause, "frame {fi}: key {:?} (re-targeted this frame: {retargeted}); component {} -> {}; its timeline started from the values at the switch gives {} at {pos_base:?} and {} at {:?}", after.acted, tbrief(&before.comp), tbrief(&after.comp), tbrief(&c1), tbrief(&c2), after.pos);
+                                } else if let Some(d) = t.reference_mismatch(cfg, &after.comp, &[pos_base, after.pos]) {
+                                    let clause = if retargeted { "jump-on-key-change" } else { "not-following-new-timeline" };
+                                    fail!("C19", clause, "frame {fi}: key {:?} (re-targeted this frame: {retargeted}), blended from {}: {d}", after.acted, tbrief(&before.comp));
                                 }
                                 out.count("probe.playing_frame_checked");
                             }
